@@ -49,7 +49,7 @@ func genC13(w *World, res *CheckResult) {
 		res.Functions = append(res.Functions, shortName(f))
 	}
 	// (b) checker.error, (c) compiler.emit, lexer stamps (shared with C12), Patch keeps the location (shared with C10)
-	for _, n := range []string{"checker.visitor.error", "compiler.compiler.emit", "lexer.lexer.emitValue", "lexer.lexer.next", "lexer.lexer.backup", "parser.parser.error"} {
+	for _, n := range []string{"checker.visitor.error", "compiler.compiler.emit", "lexer.lexer.emitValue", "lexer.lexer.next", "lexer.lexer.backup", "lexer.lexer.acceptWord", "parser.parser.error", "file.Source.updateOffsets"} {
 		fn, ct := w.Func(n), w.Contracts[n]
 		if fn == nil || ct == nil {
 			res.Obls = append(res.Obls, missingObl(n+"/exists", "function or contract missing"))
@@ -75,7 +75,7 @@ func genC13(w *World, res *CheckResult) {
 	res.Obls = append(res.Obls, selectObls(g.obls, `/post\[ip\]$`, `^vm\.VM\.Run/pre-sat$`)...)
 	res.Assumptions = append(res.Assumptions,
 		"which token is the 'offending occurrence' for a node kind is a table of intent (operator token for binary/unary/matches, own name token for identifiers, literals, calls, properties, '[' for index/slice/array, '{' for closures/maps); the syntactic obligation only requires that some token's location is used",
-		"NOT under contract: file.Source (Snippet / line offsets) and file.Error.Bind's column arithmetic — they depend on strings.Split / rune counting, which this engine treats as opaque",
+		"file.Source: only the unit of the line offsets is under contract (each line advances the offset by its rune count + 1, contents being a []rune); Snippet / findLineOffset / Error.Bind's column arithmetic are not (strings.Split and rune counting are opaque functions here)",
 		"lexer errors are stamped after the offending rune (pinned by the repository's tests); recorded as as-designed")
 }
 
